@@ -25,6 +25,15 @@ def r_id_order(ctx):
     ctx.tick()
     it = loop.iter
     ok_sorted = isinstance(it, ast.Call) and isinstance(it.func, ast.Name) and it.func.id == 'sorted' and len(it.args) == 1 and not it.keywords and isinstance(it.args[0], ast.Name)
+    if not ok_sorted and isinstance(it, ast.Name):
+        # in-place form: X.sort() (no key / reverse) as a top-level statement before the loop
+        sorts = [x for x in init.node.body if isinstance(x, ast.Expr) and isinstance(x.value, ast.Call) and isinstance(x.value.func, ast.Attribute) and x.value.func.attr == 'sort'
+                 and isinstance(x.value.func.value, ast.Name) and x.value.func.value.id == it.id and not x.value.args and not x.value.keywords and x.lineno < loop.lineno]
+        later_appends = [c for c in ast.walk(init.node) if isinstance(c, ast.Call) and isinstance(c.func, ast.Attribute) and c.func.attr == 'append' and isinstance(c.func.value, ast.Name)
+                         and c.func.value.id == it.id and sorts and c.lineno > sorts[-1].lineno]
+        if sorts and not later_appends:
+            ok_sorted = True
+            it = ast.Call(func=ast.Name(id='sorted', ctx=ast.Load()), args=[it], keywords=[])
     if not ok_sorted:
         ctx.violation('SyncObj.__init__:id-order-not-sorted', init.loc(loop), 'method ids are assigned while iterating `%s`, not a plain sorted() of the collected tuples '
                       '(any other order lets a newly added method renumber existing ones)' % unparse(it), instance=inst)
@@ -794,7 +803,7 @@ def r_silent_timeout(ctx):
     for m in P.methods_of(C):
         for n in ast.walk(m.node):
             if isinstance(n, ast.Compare) and len(n.ops) == 1 and isinstance(n.ops[0], (ast.Gt, ast.GtE)) and isinstance(n.left, ast.BinOp) and isinstance(n.left.op, ast.Sub) \
-                    and any(isinstance(x, ast.Call) and 'onotonic' in unparse(x.func) for x in ast.walk(n.left)) and P.self_attr(n.comparators[0], m.self_name):
+                    and any(U.is_clock_call(x) for x in ast.walk(n.left)) and P.self_attr(n.comparators[0], m.self_name):
                 if any(isinstance(c.func, ast.Attribute) and c.func.attr == 'disconnect' for c in P.calls_in(m)):
                     checker = m
     ctx.require(checker is not None, 'read-timeout check (now - lastReadTime > timeout => disconnect) not found')
